@@ -373,6 +373,19 @@ def body_eval(c, ctx):
                 vt = None
         if vt is not None and (vt.shape != uh.shape or not np.allclose(vt, uh, rtol=0, atol=1e-8 * mq)):
             ctx.fail('interpolator_trailing_axes', f'{lab}: result shape {vt.shape}, interpolate(u) has {uh.shape}', **sig)
+        # the same points held in other memory layouts (Fortran order, e.g. a transposed points-by-coordinates table; a strided view)
+        if vt is not None and not ctx.failures:
+            for label, xalt in (('fortran', np.asfortranarray(xq)), ('strided', np.repeat(xq, 2, axis=-1)[..., ::2])):
+                try:
+                    va = np.asarray(basis.interpolator(u)(xalt))
+                except ValueError as e:
+                    if 'outside' in str(e):
+                        continue
+                    raise
+                if va.shape != vt.shape or not np.allclose(va, vt, rtol=0, atol=1e-9 * mq):
+                    ctx.fail('interpolator_memory_layout', f'{lab}: the same query points as a {label} array give values differing by '
+                             f'{np.abs(va - vt).max() if va.shape == vt.shape else "shape"}', **sig)
+                    break
 
 
 PROP = Prop(
